@@ -347,6 +347,25 @@ def scope_leak(where):
     bound_anywhere = _pat_vars(where)
     for g, _ in _subgroups(where):
         bound_anywhere |= _pat_vars(g)
+    # a sub-SELECT whose non-projected variables also occur outside it: rdflib correlates them when the join is lazy
+    def subselects(g):
+        for e in g["elts"]:
+            if e["t"] == "subselect":
+                yield e
+                yield from subselects(e["q"]["where"])
+            elif e["t"] in ("group", "optional", "minus", "graph"):
+                yield from subselects(e["g"])
+            elif e["t"] == "union":
+                for x in e["gs"]:
+                    yield from subselects(x)
+    import json as _json
+    for ss in subselects(where):
+        inner = _pat_vars(ss["q"]["where"])
+        hidden = inner - set(ss["q"]["proj"]) if ss["q"]["proj"] != ["*"] else set()
+        txt = _json.dumps(where)
+        rest = txt.replace(_json.dumps(ss), "")
+        if any(('"v": "%s"' % v) in rest for v in hidden):
+            return True
     for g, direct_optional in _subgroups(where):
         own = _pat_vars(g)
         for e in g["elts"]:
